@@ -1,5 +1,6 @@
 """C10 — envelope integrity: blocks and headers are extracted and reproduced faithfully."""
 from .common import Report
+from . import accept
 from . import headers, fieldfmt
 
 LEVEL = "other"
@@ -21,4 +22,5 @@ def run(F, tier):
     fieldfmt.u3(rep, F, "headers")
     rep.sample({"tags": r.get("tags")})
     rep.sample({"assembly": r2.get("sequence")})
+    accept.u6(rep, F, "headers")
     return rep
